@@ -455,7 +455,10 @@ def run(ctx):
     ctx.trusted += [
         "translator translate/gen_cuboid.py: the six closed-form terms of magnet_cuboid_Bfield and the table that "
         "assembles B from them are re-translated from /repo on every run (Gen/GenCuboid.v); arctan2 is a parameter "
-        "of the theorems, np.log -> ln, np.sqrt -> sqrt over R; the octant flip is checked for shape, not modelled",
+        "of the theorems (hypotheses: odd in the first argument, reflection law in the second; proved for numpy's "
+        "arctan2 on the reals), np.log -> ln, np.sqrt -> sqrt over R; the octant flip is modelled from the translated "
+        "masks (checked literally) and sign tables; translate/gen_cylmask.py: placement of the |z|<=z0 test of "
+        "BHJM_magnet_cylinder",
         "hand models coq/Model/ReprModel.v (+ReprExec.v) of BHJM_magnet_sphere, BHJM_dipole, "
         "BHJM_cylinder_segment_internal, J/M of BHJM_magnet_cylinder, np.unique(return_inverse) mesh construction, "
         "to_TriangleCollection, tied by correspondence only (no translator): integer dispatch batches with stub "
